@@ -6,16 +6,63 @@ COMPONENTS = {
         "accessors": {"internal/future/xv_fut_verif.go": "acc/future/xv_fut_verif.go",
                       "internal/actor/xv_ask_verif.go": "acc/actor/xv_ask_verif.go"},
         "instrument": {"profile": "future", "files": ["internal/future/future.go", "internal/actor/context.go"]},
-        "what": "placeholder",
+        "what": ("one real Ask under the controlled scheduler: the real (*Context).ask and the real future.Future (both re-instrumented from the "
+                 "current source: a scheduling point before NewFuture, appendFuture, every closed.Load/CAS, the err/message assignment, close(done), "
+                 "closer(), every mu.Lock, every <-done, every liaison.Tell; time.AfterFunc -> virtual timer thread), the real System future tables "
+                 "(appendFuture, removeFuture, removeFuturesByAgentPath, findMailbox) and the real Context.Tell; only the recipient / forwarder / "
+                 "foreign-actor / root mailboxes are recording fakes. Every step's (label, closed, err, message, done, |forwarders|, registered?, "
+                 "|registry|, #PipeResults, #returns, #replies routed, ask returned?) plus the PipeResults, Result/Wait values and routing log are "
+                 "replayed on Future/FutModel.v"),
+    },
+    "ask": {
+        "coq_run_module": "Future.FutRun",
+        "cmd": "ask",
+        "run": "run_future",
+        "monitors_only": True,
+        "accessors": {"internal/actor/xv_ask_verif.go": "acc/actor/xv_ask_verif.go",
+                      "internal/future/xv_fut_verif.go": "acc/future/xv_fut_verif.go"},
+        "what": ("a real started ActorSystem through the public API, real goroutines and real time: many concurrent Asks (replies, tiny and large "
+                 "timeouts, askers killed before the reply, PipeTo) - monitors only: each future completes with the right kind of result, a reply "
+                 "reaches its own future, afterwards actorContexts / futureAgents hold no future entry"),
     },
 }
 
 PROPERTIES = {
     "C04": {
-        "components": ["future"],
-        "rule": "placeholder",
-        "modelled_not_verified": [],
+        "components": ["future", "ask"],
+        "rule": ("component future: schedules of ONE real Ask under the controlled scheduler - depth-first enumeration with a preemption bound (2 quick / 3 "
+                 "thorough) over 14 hand-picked populations (repliers, timer on/off, Close, asker death, PipeTo with 1-2 forwarders, Result/Wait, replies "
+                 "to other paths, other actors registering/unregistering) plus seeded random populations (<=3 repliers incl. error-valued and nil "
+                 "replies, timer on/off, <=2 Close, death, <=2 PipeTo, <=2 waiters, foreign registry traffic) under random and sticky schedulers; one "
+                 "case = one complete schedule compared step by step with the model. distinct = distinct (population, schedule); non-trivial = at "
+                 "least two context switches. component ask: monitors only (real system, real time)"),
+        "modelled_not_verified": [
+            "M1: sync/atomic operations are sequentially consistent; sync.Mutex gives mutual exclusion; M3: goroutine scheduling = arbitrary interleaving of the instrumented steps",
+            "appendFuture / removeFuture / removeFuturesByAgentPath / findMailbox are each ONE step (system.go is not instrumented: its sync.Map operation and its futureLock section are not interleaved with other threads)",
+            "the reads of f.message / f.err are not scheduling points of their own: they happen in the step of the preceding <-done / closed.Load (coarser than the code, same outcomes: only one of the two fields is ever written, once)",
+            "M6: time.AfterFunc fires no earlier than its duration (virtual clock: the timer's fire step is enabled only at now >= armed_at + timeout; the controlled scheduler decides when it fires)",
+            "M7: the uuid in the agent path is fresh: nobody else registers under the future's path and a reply can be addressed to it only by someone who received the request (side condition prog_ok / Await)",
+            "one focus future per model instance; every other Ask / actor of the system is environment traffic on other registry paths",
+            "forwarders named by the PipeTo calls of one future are pairwise distinct in C04_forwarders_once (ActorRefs.Unique is modelled; a forwarder named twice may legitimately receive one or two results)",
+            "fair scheduling by the Go runtime (an enabled goroutine eventually runs) for 'eventually completes'",
+        ],
     },
 }
 
-META = {"C04": {"text": "placeholder", "design_ref": "DESIGN.md section 4 C04", "note": "", "technique": ""}}
+META = {
+    "C04": {
+        "text": ("Inductive invariants over ALL interleavings of ANY population of repliers / Close callers / asker death / PipeTo callers / Result-Wait callers / "
+                 "foreign registry users, for every timeout, of a micro-step Gallina model of one Ask (Context.ask, future.Future, the System future table, a "
+                 "virtual clock): one CAS winner, result written once before done and stable afterwards, readers see only the final result, terminal "
+                 "states are completed whenever anything reached the future or a timer was armed (timer never early), only Result/Wait of a never-completed "
+                 "future can block, no registry entry is left, every named forwarder gets exactly one PipeResult with the final result, replies are routed "
+                 "by path. The model is tied to the code by lock-step replay: ask and future.go are re-instrumented from the current source on every run and "
+                 "driven by a controlled scheduler with a virtual timer (DFS with preemption bound + random); every step's label and projected shared state "
+                 "must equal the model's. Two defects found by this check (PipeTo forwarding (nil,nil); registration leak when the timer fires before "
+                 "appendFuture) were fixed in /repo (1b346be, 6668c14); the monitors that found them stay armed."),
+        "design_ref": "DESIGN.md section 4 C04",
+        "note": ("Trusted: Coq kernel; extraction; AST instrumenter + controlled scheduler (harness/instr, harness/vsched); the recording fake mailboxes; "
+                 "M1/M3 (SC atomics, interleaving), M6 (timers not early), M7 (fresh uuid); system.go's table functions as single steps; Go scheduler fairness for liveness."),
+        "technique": "Coq proof (inductive invariants of a small-step concurrent machine with ghost history, all populations and schedules) + lock-step correspondence against the instrumented real code under a controlled scheduler + real-time monitors on a real system",
+    },
+}
